@@ -336,7 +336,7 @@ Theorem dedup_models_nodup : forall raw,
   /\ length out = length raw /\ Permutation (map fst out) (seq 0 (length raw)).
 Proof.
   intro raw. unfold dedup_models. cbv zeta.
-  set (names := map class_name raw).
+  set (names := map ir_name raw).
   set (sorted := isort name_leb (combine names (seq 0 (length names)))).
   set (ns := map fst sorted).
   set (cls := assign cand_class [] (map class_name ns)).
@@ -440,7 +440,7 @@ Theorem dedup_models_valid : forall raw,
   Forall (fun x => valid_name (fst (snd x)) = true /\ valid_name (snd (snd x)) = true) (dedup_models raw).
 Proof.
   intros raw. unfold dedup_models. cbv zeta.
-  set (names := map class_name raw) in *.
+  set (names := map ir_name raw) in *.
   set (sorted := isort name_leb (combine names (seq 0 (length names)))).
   set (ns := map fst sorted).
   set (cls := assign cand_class [] (map class_name ns)).
@@ -611,12 +611,13 @@ Proof. repeat split; vm_compute; reflexivity. Qed.
 
 (* ================================================================= component schemas in the loader *)
 Lemma build_keys_go_spec : forall raw keys i,
-  (forall n, In n raw -> class_name (class_name n) = class_name n) ->
+  (forall n, In n raw -> ir_name (class_name n) = class_name n) ->
   NoDup (map class_name raw) ->
+  (forall a b, In a raw -> In b raw -> b = class_name a -> class_name b = class_name a) ->
   (forall n, In n raw -> ~ In n (map fst keys) /\ ~ In (class_name n) (map fst keys)) ->
   build_keys_go keys i raw = keys ++ combine (map class_name raw) (seq i (length raw)).
 Proof.
-  induction raw as [|n r IH]; intros keys i Hid Hnd Hfresh; [simpl; rewrite app_nil_r; reflexivity|].
+  induction raw as [|n r IH]; intros keys i Hid Hnd Hx Hfresh; [simpl; rewrite app_nil_r; reflexivity|].
   cbn [build_keys_go]. destruct (Hfresh n (or_introl eq_refl)) as [H1 H2].
   assert (E1 : mem_str n (map fst keys) = false) by (destruct (mem_str n (map fst keys)) eqn:E; [apply mem_str_In in E; contradiction | reflexivity]).
   assert (E2 : mem_str (class_name n) (map fst keys) = false)
@@ -627,9 +628,10 @@ Proof.
   - rewrite <- app_assoc. reflexivity.
   - intros n' Hn'. apply Hid. right. exact Hn'.
   - exact Hnd'.
+  - intros a b Ha Hb. apply Hx; right; assumption.
   - intros n' Hn'. rewrite map_app. simpl map. destruct (Hfresh n' (or_intror Hn')) as [F1 F2].
     split; intro Hin; apply in_app_or in Hin; destruct Hin as [Hin|[Hin|[]]]; try contradiction.
-    + apply Hnotin. rewrite <- (Hid n (or_introl eq_refl)). rewrite Hin. apply in_map. exact Hn'.
+    + apply Hnotin. rewrite <- (Hx n n' (or_introl eq_refl) (or_intror Hn') (eq_sym Hin)). apply in_map. exact Hn'.
     + apply Hnotin. rewrite Hin. apply in_map. exact Hn'.
 Qed.
 
@@ -654,9 +656,15 @@ Theorem build_keys_partial : forall raw, guard_F20k raw = true -> guard_F20m raw
   build_keys raw = Some (combine (map class_name raw) (seq 0 (length raw))).
 Proof.
   intros raw Gk Gm. unfold build_keys. cbv zeta.
-  assert (Hid : forall n, In n raw -> class_name (class_name n) = class_name n).
+  assert (Hid : forall n, In n raw -> ir_name (class_name n) = class_name n).
   { intros n Hn. unfold guard_F20k in Gk. rewrite forallb_forall in Gk. apply str_eqb_eq, Gk, Hn. }
+  unfold guard_F20m in Gm. apply andb_true_iff in Gm. destruct Gm as [Gm Gs].
   apply nodupb_NoDup in Gm.
+  assert (Hx : forall a b, In a raw -> In b raw -> b = class_name a -> class_name b = class_name a).
+  { intros a b Ha Hb E. rewrite forallb_forall in Gs. specialize (Gs b Hb). apply orb_true_iff in Gs.
+    destruct Gs as [Gs|Gs].
+    - apply negb_true_iff in Gs. exfalso. apply (mem_str_false _ _ Gs). rewrite E. apply in_map. exact Ha.
+    - apply str_eqb_eq in Gs. rewrite <- Gs. exact E. }
   assert (Hk : map fst (combine (map class_name raw) (seq 0 (length raw))) = map class_name raw)
     by (apply map_fst_combine; rewrite map_length, seq_length; reflexivity).
   assert (Hp : build_passes (length raw) [] raw = combine (map class_name raw) (seq 0 (length raw))).
@@ -664,7 +672,7 @@ Proof.
     destruct Hl as [Hl|[k Hl]].
     - destruct raw; [reflexivity | discriminate Hl].
     - rewrite Hl at 1. cbn [build_passes].
-      rewrite (build_keys_go_spec raw [] 0 Hid Gm) by (intros n _; split; intros []). cbn [app].
+      rewrite (build_keys_go_spec raw [] 0 Hid Gm Hx) by (intros n _; split; intros []). cbn [app].
       apply build_passes_noop. intros n Hn. rewrite Hk. apply in_map. exact Hn. }
   rewrite Hp, Hk.
   replace (forallb _ raw) with true; [reflexivity|]. symmetry. apply forallb_forall. intros n Hn.
@@ -672,17 +680,29 @@ Proof.
 Qed.
 
 Definition w_a_b : str := [97;95;98].                                   (* a_b *)
+Definition w_n_o_n_e : str := [110;95;111;95;110;95;101].               (* n_o_n_e *)
 Definition w_foo_bar : str := [102;111;111;95;98;97;114].               (* foo_bar *)
 Definition w_FooBar : str := [70;111;111;66;97;114].                    (* FooBar *)
-Lemma refuted_F20k : guard_F20k [w_a_b] = false /\ guard_F20m [w_a_b] = true /\ build_keys [w_a_b] = None.
-Proof. repeat split; vm_compute; reflexivity. Qed.
+Definition w_Pet : str := [80;101;116].
+(* F20k: before the fix of IRSchema.__post_init__ the witness is a_b (AB -> Ab); with it the stored name of an
+   already sanitised name only differs when the second sanitisation does more than re-casing, which is left for
+   names that spell none/true/false in one-letter words (n_o_n_e -> NONE -> None_).  Which of the two holds is
+   decided by the flag the translator reads from ir.py. *)
+Lemma refuted_F20k :
+  (guard_F20k [w_a_b] = false /\ guard_F20m [w_a_b] = true /\ build_keys [w_a_b] = None)
+  \/ (post_init_keeps_output = true /\ build_keys [w_a_b] = Some [([65;66], 0%nat)]
+      /\ guard_F20k [w_n_o_n_e] = false /\ guard_F20m [w_n_o_n_e] = true /\ build_keys [w_n_o_n_e] = None).
+Proof.
+  first [ left; repeat split; vm_compute; reflexivity | right; repeat split; vm_compute; reflexivity ].
+Qed.
 Lemma refuted_F20m : guard_F20k [w_foo_bar; w_FooBar] = true /\ guard_F20m [w_foo_bar; w_FooBar] = false
   /\ build_keys [w_foo_bar; w_FooBar] = Some [(w_FooBar, 0%nat)].
 Proof. repeat split; vm_compute; reflexivity. Qed.
-(* since F02d: in a document with a second schema the non-idempotent name no longer fails, it is registered twice *)
-Definition w_Pet : str := [80;101;116].
-Lemma F20k_duplicate : build_keys [w_a_b; w_Pet] = Some [([65;98], 0%nat); (w_Pet, 1%nat); (w_a_b, 0%nat)].
-Proof. vm_compute. reflexivity. Qed.
+(* a document with a second schema: before the fix a_b is registered twice (since F02d's extra passes), with it once *)
+Lemma F20k_second_schema :
+  build_keys [w_a_b; w_Pet] = Some [([65;98], 0%nat); (w_Pet, 1%nat); (w_a_b, 0%nat)]
+  \/ build_keys [w_a_b; w_Pet] = Some [([65;66], 0%nat); (w_Pet, 1%nat)].
+Proof. first [ left; vm_compute; reflexivity | right; vm_compute; reflexivity ]. Qed.
 Lemma schemas_guard_nonvacuous : guard_F20k [w_foo_bar; w_none; w_1st] = true /\ guard_F20m [w_foo_bar; w_none; w_1st] = true.
 Proof. split; vm_compute; reflexivity. Qed.
 
@@ -692,7 +712,7 @@ Proof.
   induction refs as [|r rest IH]; intros keys i; [exists []; simpl; rewrite app_nil_r; reflexivity|].
   cbn [refs_go]. destruct (mem_str r (map fst keys)).
   - apply IH.
-  - destruct (IH (keys ++ [(if mem_str (class_name (class_name r)) (map fst keys) then r else class_name (class_name r), i)]) (S i))
+  - destruct (IH (keys ++ [(if mem_str (ir_name (class_name r)) (map fst keys) then r else ir_name (class_name r), i)]) (S i))
       as [ext E]. rewrite E. rewrite <- app_assoc. eexists. reflexivity.
 Qed.
 
